@@ -54,7 +54,9 @@ type bsim struct {
 	extPrefix    []string // per module: what external paths are prefixed with
 	refErrors    []refError
 	filterTypes  []string
-	faultKind    string // which kind of operation may fail in the current execution ("any": all)
+	// withFormatDiff: this run also produces the `buf format -d` output
+	withFormatDiff bool
+	faultKind      string // which kind of operation may fail in the current execution ("any": all)
 	// excludeSourceInfo: the current pipeline execution builds without source info (prelude only)
 	excludeSourceInfo bool
 	lintExcept        []string
@@ -519,7 +521,7 @@ func Run(tp *tape.Tape, env *engine.Env) *engine.Outcome {
 	if os.Getenv("VERIF_FORCE_HEAVY") != "" {
 		mode, unusedHeavy = "schedule", true
 	}
-	m.ws = wsgen.New(tp, wsgen.Options{MaxModules: 3, MaxFiles: maxFiles, Targeting: true, PlantError: mode == "planted", SupplyWKT: wktContent, UnusedHeavy: unusedHeavy})
+	m.ws = wsgen.New(tp, wsgen.Options{MaxModules: 3, MaxFiles: maxFiles, Targeting: true, PlantError: mode == "planted", SupplyWKT: wktContent, UnusedHeavy: unusedHeavy, CustomOptions: true})
 	s.Event("case mode=%s modules=%d files=%d targets=%v", mode, len(m.ws.Modules), len(m.ws.Files), m.ws.Targets())
 
 	if m.prop == "C02" {
@@ -584,6 +586,7 @@ func Run(tp *tape.Tape, env *engine.Env) *engine.Outcome {
 	}
 	if m.prop == "C02" && ref != nil {
 		m.filterTypes = m.drawFilterTypes(ref)
+		m.withFormatDiff = tp.Draw("formatdiff", 4) == 3
 	}
 	ntasks := len(m.ws.Files) + 6
 
